@@ -12,6 +12,26 @@ class AppLab:
     def __init__(self, ctx, cfg):
         self.ctx, self.cfg = ctx, cfg
         self.real = sigref.RealMatcher(ctx)
+        self.decorate = True
+
+    def crowd(self, n, payload=b"x"):
+        """Fill the connection table with n validated flows (one accepted data segment each)."""
+        rng = self.ctx.rng
+        self.ctx.case(reset=True, record=False)
+        made = 0
+        e = gen.endp(rng, self.cfg, False)
+        while made < n:
+            m = min(4000, n - made)
+            tuples = [(1 + ((made + i) % 60000), 1 + (made + i) // 60000) for i in range(m)]
+            rs = self.ctx.send_many([e.tcp(sp, dp, 1, 0, pkt.SYN) for sp, dp in tuples])
+            data = []
+            for (sp, dp), r in zip(tuples, rs):
+                if r.kind == "R":
+                    data.append(e.tcp(sp, dp, 2, (pkt.parse(r.reply).seq + 1) & 0xFFFFFFFF, PSH | ACK, payload))
+            rs = self.ctx.send_many(data)
+            made += m
+        self.ctx.case(reset=False)
+        return rs[-1].table if rs else 0
 
     def identified(self, payload, transport):
         """Protocol id both matchers agree on, or None if they disagree (C10's business)."""
@@ -35,7 +55,10 @@ class AppLab:
         if f.syn() is None:
             a.res, a.rep = None, None
             return a
-        a.res = f.data(payload)
+        # a data segment is any segment carrying PSH and ACK: sometimes decorate it (FIN for a client that writes and
+        # closes at once, URG / ECE / CWR)
+        extra = rng.choice([0, 0, 0, 0, 0, 0, 1, 0x20, 0x40, 0x80]) if self.decorate else 0
+        a.res = f.data(payload, flags=PSH | ACK | extra)
         a.rep = app_payload(a.res)
         if a.res.kind == "R":
             q = pkt.parse(a.res.reply)
@@ -58,3 +81,31 @@ class AppLab:
             rep = app_payload(f.data(seg))
             out.append(rep if rep else None)
         return out
+
+    def positive_segmented(self, payload, is_reply, what, min_sig=8, maxcuts=4, only_sig=False):
+        """Deliver a complete request in 2..maxcuts+1 segments (cuts biased into the first min_sig bytes, i.e. inside the
+        identifying signature) and require: nothing but bare ACKs before the last segment, a reply recognised by
+        is_reply() in the last one.  Returns the reply payload of the last segment (or None)."""
+        ctx, rng = self.ctx, self.ctx.rng
+        if len(payload) < 3:
+            return None
+        k = rng.randrange(1, maxcuts + 1)
+        if only_sig:
+            # responders that are not incremental see one segment at a time once the protocol is identified: only cuts
+            # inside the identifying signature are constrained (the bytes before identification are handed over together)
+            cuts = sorted(set(rng.randrange(1, min(len(payload), min_sig)) for _c in range(k)))
+        else:
+            cuts = sorted(set(rng.choice([rng.randrange(1, min(len(payload), min_sig + 1)), rng.randrange(1, len(payload))]) for _c in range(k)))
+        reps = self.ask_segments(payload, cuts)
+        if reps is None:
+            return None
+        ctx.stats["segmented_" + what] += 1
+        ctx.nontrivial("seg", what, payload[:64], tuple(cuts))
+        if any(r is not None for r in reps[:-1]) or not is_reply(reps[-1]):
+            ctx.violation("segmented:%s:%s" % (what, "early_reply" if any(r is not None for r in reps[:-1]) else "no_reply"),
+                          "%s request delivered in segments cut at %s: reply sizes per segment %s (expected: one reply, in the completing segment)" % (
+                              what, cuts, [None if r is None else len(r) for r in reps]),
+                          observed=str([None if r is None else len(r) for r in reps]), expected="one reply, in the last segment",
+                          extra={"stream": payload.hex()[:2000], "cuts": cuts})
+            return None
+        return reps[-1]
